@@ -54,8 +54,14 @@ type Config struct {
 	// EndOnMain: the run ends when task 1 exits (an Elk process ends with its main thread).
 	EndOnMain bool `json:"end_on_main,omitempty"`
 
-	FaultHook func(f Fault)          `json:"-"`
-	FailHook  func(name string) bool `json:"-"`
+	// OnEnd is called when the run has ended, before abandoned tasks are drained.
+	OnEnd func() `json:"-"`
+	// DrainUntil: after the end of a run that abandons tasks, ready tasks keep being
+	// released (round robin, a few hundred ticks each) until this reports true: an
+	// abandoned task must not stay parked inside a critical section of a process-global lock.
+	DrainUntil func() bool            `json:"-"`
+	FaultHook  func(f Fault)          `json:"-"`
+	FailHook   func(name string) bool `json:"-"`
 	// StateHook, if set, is called at every decision with a hash of the quiescent state.
 	StateHook func(h uint64) `json:"-"`
 }
@@ -423,6 +429,59 @@ func (s *Sched) result(outcome string) Result {
 // root goroutine. It returns rather than panics; tasks still parked or blocked
 // are abandoned (the caller recovers synctest's end-of-bubble panic).
 func (s *Sched) Run() Result {
+	r := s.run()
+	if s.cfg.OnEnd != nil {
+		s.cfg.OnEnd()
+	}
+	if r.Abandoned > 0 && s.cfg.DrainUntil != nil {
+		s.drain()
+	}
+	return r
+}
+
+// drain lets abandoned tasks run a little further so that none of them stays
+// parked while holding a process-global lock. Nothing it does is recorded.
+func (s *Sched) drain() {
+	for round := 0; round < 200; round++ {
+		synctest.Wait()
+		if s.cfg.DrainUntil() {
+			return
+		}
+		s.mu.Lock()
+		if c := s.cur; c != nil && c.state == stRunning {
+			c.state = stBlocked
+			s.cur = nil
+		}
+		var ready []*task
+		for _, t := range s.tasks {
+			if t.state == stParked && (t.enabled == nil || t.enabled()) {
+				ready = append(ready, t)
+			}
+		}
+		s.mu.Unlock()
+		if len(ready) == 0 {
+			return
+		}
+		for _, t := range ready {
+			s.mu.Lock()
+			t.state = stRunning
+			t.enabled = nil
+			s.cur = t
+			s.countdown = 300
+			s.mu.Unlock()
+			t.gate <- struct{}{}
+			synctest.Wait()
+			s.mu.Lock()
+			if t.state == stRunning {
+				t.state = stBlocked
+			}
+			s.cur = nil
+			s.mu.Unlock()
+		}
+	}
+}
+
+func (s *Sched) run() Result {
 	horizon := 2000 * time.Hour
 	for {
 		synctest.Wait()
